@@ -200,7 +200,8 @@ pub fn timeout_address<S: Src>(s: &mut S) {
 /// the order the interpreter visits them.
 pub fn call_chain_order<S: Src>(s: &mut S) {
     let mut rig = Rig::new_with_trace(8, 4, 1 << 16);
-    rig.prog = small_program();
+    // (the default program is leaked, not dropped: its teardown loops are not the subject)
+    std::mem::forget(std::mem::replace(&mut rig.prog, small_program()));
     let a1 = s.u32();
     let a2 = s.u32();
     let mut a = Asm::new();
